@@ -48,6 +48,9 @@ namespace xv {
 
 static MemoryManager* MM() { return XMLPlatformUtils::fgMemoryManager; }
 
+// nullable string field: "~" = null pointer, otherwise ":" + escaped text (so that a literal "~" or "!..." stays distinguishable)
+static std::string sesc(const XMLCh* s) { return s ? ":" + esc(s) : std::string("~"); }
+
 static std::string excName(const XMLException& e) {
     std::string t = u8(e.getType());
     return "X:" + t + ":" + itos((long long)e.getCode());
@@ -167,17 +170,17 @@ static std::string doCompare(DatatypeValidator* dv, const XMLCh* a, const XMLCh*
     catch (const OutOfMemoryException&) { return "OOM"; }
     catch (...) { return "X:unknown"; }
 }
-// returns false when the call threw; out = escaped canonical form or "~"
-static std::string doCanon(DatatypeValidator* dv, const XMLCh* s, bool toValidate, xstr* keep) {
+// canonical form as a nullable string field (sesc); when the call threw: "~" and *exc = exception
+static std::string doCanon(DatatypeValidator* dv, const XMLCh* s, bool toValidate, xstr* keep, std::string* exc) {
     try {
         const XMLCh* c = dv->getCanonicalRepresentation(s, MM(), toValidate);
-        std::string r = esc(c);
+        std::string r = sesc(c);
         if (c) { if (keep) *keep = c; MM()->deallocate((void*)c); }
         return r;
     }
-    catch (const XMLException& e) { return "!" + excName(e); }
-    catch (const OutOfMemoryException&) { return "!OOM"; }
-    catch (...) { return "!X:unknown"; }
+    catch (const XMLException& e) { if (exc) *exc = excName(e); return "~"; }
+    catch (const OutOfMemoryException&) { if (exc) *exc = "OOM"; return "~"; }
+    catch (...) { if (exc) *exc = "X:unknown"; return "~"; }
 }
 
 static std::string hexbytes(const XMLByte* p, size_t n) {
@@ -239,18 +242,23 @@ static void valueStep(TypeEnv& E, const Step& st) {
         std::string l = "V\t" + tag + "\t" + r1;
         // canonical form, asked both ways (validating / trusting the caller)
         xstr canon;
-        std::string c1 = noCanon ? std::string("skipped") : doCanon(dv, v.c_str(), true, &canon);
+        std::string cx;
+        std::string c1 = noCanon ? std::string("skipped") : doCanon(dv, v.c_str(), true, &canon, &cx);
         l += "\tcv=" + c1;
+        if (!cx.empty()) l += "\tcvx=" + cx;
         if (r1 == "OK" && noCanon) l += "\tself=" + doCompare(dv, v.c_str(), v.c_str());
         else if (r1 == "OK") {
-            std::string c0 = doCanon(dv, v.c_str(), false, 0);
+            std::string cx0, cx2;
+            std::string c0 = doCanon(dv, v.c_str(), false, 0, &cx0);
             l += "\tcn=" + c0;
+            if (!cx0.empty()) l += "\tcnx=" + cx0;
             l += "\tself=" + doCompare(dv, v.c_str(), v.c_str());
-            if (c1 != "~" && c1[0] != '!') {
+            if (c1 != "~") {
                 l += "\tvc=" + doValidate(dv, canon.c_str());
                 l += "\tcmp=" + doCompare(dv, v.c_str(), canon.c_str());
                 l += "\tcmpr=" + doCompare(dv, canon.c_str(), v.c_str());
-                l += "\tcc=" + doCanon(dv, canon.c_str(), true, 0);
+                l += "\tcc=" + doCanon(dv, canon.c_str(), true, 0, &cx2);
+                if (!cx2.empty()) l += "\tccx=" + cx2;
             }
         }
         gOut.line(l);
@@ -266,13 +274,13 @@ static void valueStep(TypeEnv& E, const Step& st) {
             l += std::string("\t") + (ok ? "1" : "0") + "\tst=" + itos(s1);
             XMLCh* c = noCanon ? 0 : XSValue::getCanonicalRepresentation(v.c_str(), dt, s2, XSValue::ver_10, true, MM());
             if (noCanon) s2 = XSValue::st_NoCanRep;
-            l += "\tcan=" + esc(c) + "\tcst=" + itos(s2);
+            l += "\tcan=" + sesc(c) + "\tcst=" + itos(s2);
             if (c) {
                 // idempotence and validity of XSValue's own canonical form
                 XSValue::Status s5 = XSValue::st_Init, s6 = XSValue::st_Init;
                 bool okc = XSValue::validate(c, dt, s5, XSValue::ver_10, MM());
                 XMLCh* c2 = XSValue::getCanonicalRepresentation(c, dt, s6, XSValue::ver_10, true, MM());
-                l += std::string("\tcanv=") + (okc ? "1" : "0") + "\tcan2=" + esc(c2);
+                l += std::string("\tcanv=") + (okc ? "1" : "0") + "\tcan2=" + sesc(c2);
                 if (c2) MM()->deallocate(c2);
                 MM()->deallocate(c);
             }
@@ -316,8 +324,8 @@ struct PRec : public DefaultHandler, public PSVIHandler {
     void resetErrors() {}
     static std::string item(PSVIItem* it) {
         std::string s = "val=" + itos((int)it->getValidity()) + "\tatt=" + itos((int)it->getValidationAttempted());
-        s += "\tnorm=" + esc(it->getSchemaNormalizedValue());
-        s += "\tcan=" + esc(it->getCanonicalRepresentation());
+        s += "\tnorm=" + sesc(it->getSchemaNormalizedValue());
+        s += "\tcan=" + sesc(it->getCanonicalRepresentation());
         XSSimpleTypeDefinition* m = 0;
         try { m = it->getMemberTypeDefinition(); } catch (...) {}
         s += "\tmem=" + (m ? esc(m->getName()) : std::string("~"));
